@@ -16,6 +16,9 @@ SPEC = {
             "inverse/apply_vec_into/apply_inverse_vec_into/apply_vec_in_place/matrix/matrix.dot/transform on a random integer payload; "
             "every operation again on the objects obtained by 1, 2 and 3 calls of inverse() (object histories: an inverse of an inverse must be the original, also through apply/matrix/transform); "
             "transform on column-major and transposed-memory-order matrices, apply_vec_into / apply_inverse_vec_into on strided, reversed and column views (answers must not depend on the memory layout); "
+            "apply_vec_in_place on OWNED non-contiguous Array1 values (stride 2 from slice_move, stride 3 from slice_collapse, inverted axis), also on the derived objects; "
+            "boundary VALUES in `new` (usize::MAX, usize::MAX-1, 2^63, 2^63-1, 2^32, 2^32-1, n, n+1 as decimal text; the model works over Nat) at every "
+            "position of every list of length <= 4 over 0..len, at two positions for a fifth of them, and in the random longer lists; "
             "plus random index vectors up to length 64 with injected out-of-range and repeated elements. "
             "STRUCTURED permutations for every n in 1..40 and n = 48, 64, 65, 100, 129 (thorough: every n <= 64, some up to 257): identity, "
             "reversal, rotation by every k (divisors and non-divisors of n alike; for n > 40 a selection), block moves with block sizes 2..16 "
